@@ -36,7 +36,8 @@ PadLeftZeros(ds, w) == IF Len(ds) >= w THEN ds ELSE PadLeftZeros(<<48>> \o ds, w
 \* exact decimal form of a dyadic rational with a small denominator (<= 2^9):
 \* n / 2^k = n * 5^k / 10^k.  This is also the shortest form that reads back.
 NumCps(x) ==
-    IF x.d = 1 THEN [ok |-> TRUE, s |-> IntCps(x.n)]
+    IF IsZeroU(x) THEN [ok |-> FALSE, s |-> <<>>]
+    ELSE IF x.d = 1 THEN [ok |-> TRUE, s |-> IntCps(x.n)]
     ELSE IF ~Dyadic(x) \/ x.d > 512 \/ ~MulFits(x.n, PowI(5, Pow2Exp(x.d))) THEN [ok |-> FALSE, s |-> <<>>]
     ELSE LET k == Pow2Exp(x.d)
              a == AbsI(x.n) * PowI(5, k)
